@@ -384,6 +384,14 @@ func NewPathCondsAvoiding(fn *ssa.Function, avoid map[*ssa.BasicBlock]bool) *Pat
 			var lit *Lit
 			if iff, ok := p.Instrs[len(p.Instrs)-1].(*ssa.If); ok && p.Succs[0] != p.Succs[1] {
 				lit = &Lit{Cond: iff.Cond, Val: p.Succs[0] == b}
+				// `x && y` / `x || y` stored in a variable: the condition is a phi of constants and
+				// sub-conditions defined in p itself; take the edges on which it can have this value
+				if ph, isPhi := iff.Cond.(*ssa.Phi); isPhi && ph.Block() == p && len(ph.Edges) == len(p.Preds) {
+					if ex, ok := pc.expandBoolPhi(ph, lit.Val); ok {
+						pd = ex
+						lit = nil
+					}
+				}
 			}
 			for _, t := range pd {
 				nt := t
@@ -405,6 +413,49 @@ func NewPathCondsAvoiding(fn *ssa.Function, avoid map[*ssa.BasicBlock]bool) *Pat
 		pc.dnf[b] = acc
 	}
 	return pc
+}
+
+// expandBoolPhi: the path conditions under which the boolean phi (at the head of its block)
+// has the value val: for every incoming edge whose value is that constant, or a
+// sub-condition (then required to have that value), the conditions of that edge.
+func (pc *PathConds) expandBoolPhi(ph *ssa.Phi, val bool) (DNF, bool) {
+	p := ph.Block()
+	var out DNF
+	for i, e := range ph.Edges {
+		pp := p.Preds[i]
+		if pc.back[[2]int{pp.Index, p.Index}] {
+			return nil, false
+		}
+		ppd, ok := pc.dnf[pp]
+		if !ok {
+			continue
+		}
+		var extra []Lit
+		if iff, ok := pp.Instrs[len(pp.Instrs)-1].(*ssa.If); ok && pp.Succs[0] != pp.Succs[1] {
+			extra = append(extra, Lit{Cond: iff.Cond, Val: pp.Succs[0] == p})
+		}
+		if k, isConst := e.(*ssa.Const); isConst {
+			if k.Value == nil || (k.Value.ExactString() == "true") != val {
+				continue
+			}
+		} else {
+			extra = append(extra, Lit{Cond: e, Val: val})
+		}
+	terms:
+		for _, t := range ppd {
+			nt := append(Term{}, t...)
+			for _, l := range extra {
+				if nt.has(Lit{l.Cond, !l.Val}) {
+					continue terms
+				}
+				if !nt.has(l) {
+					nt = append(nt, l)
+				}
+			}
+			out = append(out, nt)
+		}
+	}
+	return out, true
 }
 
 func rpo(fn *ssa.Function, back map[[2]int]bool) []*ssa.BasicBlock {
